@@ -407,7 +407,8 @@ type StreamingResponseWriter interface {
 //
 // The response is sent to the given channel as soon as the status code is set, the response
 // body is streamed as soon as each successive call to the ResponseWriter's `Write` method is
-// invoked, and the trailers are made available once the `Close` method is called.
+// invoked, and the trailers are made available once the `Close` method is called and the
+// response body has been read to the end.
 //
 // The caller that passes this ResponseWriter to an http.Handler is responsible for closing
 // the writer as soon as the call to the handler's `ServeHTTP` method completes.
@@ -458,7 +459,12 @@ func (w *streamingResponseWriter) WriteHeader(status int) {
 	w.wroteHeader = true
 
 	// Initialize the response trailers.
+	//
+	// The response is processed in a different goroutine than the one that writes it, so the
+	// two must not share any maps; `w.trailer` is what the `Close` method collects, and `trailer`
+	// is what we publish in the response and fill in once the end of the body is read.
 	w.trailer = make(http.Header)
+	trailer := make(http.Header)
 	for _, v := range w.Header().Values("Trailer") {
 		// Each value of the `Trailer` header is a comma-separated list of trailer names.
 		for _, k := range strings.Split(v, ",") {
@@ -476,6 +482,7 @@ func (w *streamingResponseWriter) WriteHeader(status int) {
 				continue
 			}
 			w.trailer[k] = []string{}
+			trailer[k] = []string{}
 		}
 	}
 
@@ -491,7 +498,6 @@ func (w *streamingResponseWriter) WriteHeader(status int) {
 			header.Add(k, v)
 		}
 	}
-	w.header = header
 
 	// Take the protocol version information for the response from the corresponding request.
 	proto := "HTTP/1.1"
@@ -508,9 +514,9 @@ func (w *streamingResponseWriter) WriteHeader(status int) {
 		ProtoMinor: protoMinor,
 		StatusCode: status,
 		Status:     http.StatusText(status),
-		Header:     w.header,
-		Body:       w.bodyReader,
-		Trailer:    w.trailer,
+		Header:     header,
+		Body:       &streamedBody{w.bodyReader, w.trailer, trailer},
+		Trailer:    trailer,
 	}
 	select {
 	case w.respChan <- resp:
@@ -556,6 +562,30 @@ func (w *streamingResponseWriter) Close() error {
 
 func (w *streamingResponseWriter) CloseWithError(err error) error {
 	return w.bodyReader.CloseWithError(err)
+}
+
+// streamedBody is the body of a response published by a streamingResponseWriter.
+//
+// Reading the end of the body fills in the trailers of the response.
+type streamedBody struct {
+	*io.PipeReader
+
+	// writerTrailer holds the trailers collected by the `Close` method of the response writer.
+	writerTrailer http.Header
+	// responseTrailer is the `Trailer` field of the published response.
+	responseTrailer http.Header
+}
+
+func (b *streamedBody) Read(bs []byte) (int, error) {
+	n, err := b.PipeReader.Read(bs)
+	if err == io.EOF {
+		// The response writer is done updating its trailers by the time it closes
+		// the body, so it is now safe to read them from the reader's goroutine.
+		for k, vs := range b.writerTrailer {
+			b.responseTrailer[k] = vs
+		}
+	}
+	return n, err
 }
 
 // NewResponseForwarder constructs a new ResponseWriteCloser that forwards to the
